@@ -37,9 +37,18 @@ pub fn tables(schema: &[&'static str], maxrows: usize, side: i64) -> Vec<Tbl> {
   out
 }
 
-pub fn literal(t: &Tbl) -> String {
-  let head = t.cols.iter().map(|c| format!("{}<u64>", c)).collect::<Vec<_>>().join(" ");
-  let rows = t.rows.iter().map(|r| r.iter().map(|x| x.to_string()).collect::<Vec<_>>().join(" ")).collect::<Vec<_>>().join(" | ");
+/// column kind layouts: (kind of the key columns k, j; kind of the payload columns a, b)
+pub const LAYOUTS: [(&str, &str); 5] = [("u64", "u64"), ("u8", "f64"), ("string", "u64"), ("bool", "string"), ("f64", "u8")];
+
+fn spell(kind: &str, v: i64) -> String {
+  match kind { "string" => format!("\"s{}\"", v), "bool" => (if v == 1 { "true" } else { "false" }).to_string(), "f64" => format!("{}.5", v), _ => v.to_string() }
+}
+
+pub fn literal(t: &Tbl) -> String { literal_in(t, LAYOUTS[0]) }
+pub fn literal_in(t: &Tbl, lay: (&str, &str)) -> String {
+  let kind_of = |c: &str| if is_key(c) { lay.0 } else { lay.1 };
+  let head = t.cols.iter().map(|c| format!("{}<{}>", c, kind_of(c))).collect::<Vec<_>>().join(" ");
+  let rows = t.rows.iter().map(|r| r.iter().zip(t.cols.iter()).map(|(x, c)| spell(kind_of(c), *x)).collect::<Vec<_>>().join(" ")).collect::<Vec<_>>().join(" | ");
   format!("|{}| {} |", head, rows)
 }
 
@@ -90,7 +99,14 @@ fn observed(c: &Canon) -> Option<(Vec<(String, String)>, Vec<Row>, usize)> {
     for r in rows {
       let mut m = Row::new();
       for (i, (name, _)) in cols.iter().enumerate() {
-        let v = match r.get(i) { Some(Canon::Num(_, t)) => t.parse::<i64>().ok(), Some(Canon::Empty) => None, _ => Some(i64::MIN) };
+        // decode the cell spellings of every layout back to the integer the generator wrote
+        let v = match r.get(i) {
+          Some(Canon::Num(k, t)) if k == "f64" => t.parse::<f64>().ok().map(|x| if x.fract() == 0.5 { x.floor() as i64 } else { i64::MIN }),
+          Some(Canon::Num(_, t)) => t.parse::<i64>().ok(),
+          Some(Canon::Str(t)) => t.strip_prefix('s').and_then(|x| x.parse::<i64>().ok()).or(Some(i64::MIN)),
+          Some(Canon::Bool(b)) => Some(if *b { 1 } else { 2 }),
+          Some(Canon::Empty) => None,
+          _ => Some(i64::MIN) };
         m.insert(name.clone(), v);
       }
       out.push(m);
@@ -121,7 +137,9 @@ fn judge(c: &Canon, a: &Tbl, b: &Tbl, op: &str, locus: &str, case: &str, out: &m
 }
 
 impl UnitRunner for C18 {
-  fn unit(&mut self, _payload: &str, unit: u64, out: &mut WorkerOut) {
+  fn unit(&mut self, payload: &str, unit: u64, out: &mut WorkerOut) {
+    let li = payload.strip_prefix('L').and_then(|x| x.parse::<usize>().ok()).unwrap_or(0);
+    let lay = LAYOUTS[li];
     let sp = (unit / 256) as usize;
     let ai = (unit % 256) as usize;
     if sp >= 9 { self.row_selection(unit - 9 * 256, out); return; }
@@ -133,13 +151,13 @@ impl UnitRunner for C18 {
     let shared = ls.iter().filter(|c| rs.contains(c)).count();
     for (bi, b) in rt.iter().enumerate() {
       let mut s = Session::new();
-      let (da, db) = (format!("A := {}", literal(a)), format!("B := {}", literal(b)));
+      let (da, db) = (format!("A := {}", literal_in(a, lay)), format!("B := {}", literal_in(b, lay)));
       if !s.run(&da).is_value() || !s.run(&db).is_value() { out.count("table_literal_rejected"); continue; }
       // 0-row operands arise as join results only
       let empty_ok = bi == 0 && s.run("E := A ▷ A").is_value() && s.run("G := B ▷ B").is_value();
       for (n, (sym, word, op)) in OPS.iter().enumerate() {
         let dup = a.rows.len() > 1 || b.rows.len() > 1;
-        let locus = format!("{}:shared{}:{}", op, shared, if dup { "multi-row" } else { "single-row" });
+        let locus = format!("{}:shared{}:{}{}", op, shared, if dup { "multi-row" } else { "single-row" }, if li == 0 { String::new() } else { format!(":keys-{}-payload-{}", lay.0, lay.1) });
         out.evaluations += 1;
         let o = s.run(&format!("J{} := A {} B", n, sym));
         let case = format!("{}; {}; J := A {} B", da, db, sym);
@@ -226,12 +244,15 @@ impl Check for C18 {
   fn level(&self) -> &'static str { "exploration" }
   fn unit_budget(&self, _t: Tier) -> Duration { Duration::from_secs(120) }
   fn drive(&mut self, tier: Tier, cfg: &PoolCfg, rep: &mut Report) {
-    rep.rule = format!("9 schema pairs (lhs columns from {{k,j,a}}, rhs from {{k,j,b}}: 0, 1 or 2 shared names) x every lhs table x every rhs table with 1..{} rows (key cells over {{1,2}}, row-unique payloads, so duplicates and non-matching keys all occur) x inner, left/right/full outer, left semi, left anti x symbol and word form, plus 0-row operands produced by an anti-join; \
+    rep.rule = format!("9 schema pairs (lhs columns from {{k,j,a}}, rhs from {{k,j,b}}: 0, 1 or 2 shared names) x every lhs table x every rhs table with 1..{} rows (key cells over {{1,2}}, row-unique payloads, so duplicates and non-matching keys all occur) x 5 column-kind layouts (keys u64 / u8 / string / bool / f64 with payloads u64 / f64 / u64 / string / u8) x inner, left/right/full outer, left semi, left anti x symbol and word form, plus 0-row operands produced by an anti-join; \
       row selection on tables of 1..{} rows by every scalar index 0..n+1, every index pair, every index vector of length 3 (and 4 for n = 4), every mask of length n-1..n+1; the reference is a nested-loop join on lists of rows compared as multisets keyed by column name incl. which columns are optional; evaluations = statements; non-trivial = judged statements", self.maxrows(), tier.pick(4, 5));
     rep.assumptions = vec!["row order of a join, column order and shared columns of different kinds are not judged".into()];
     rep.cov("bounds", json!({"schema_pairs": 9, "max_rows": self.maxrows()}));
     let mut jobs = range_jobs("", 9 * 256, 1);
     jobs.retain(|j| { let ai = (j.lo % 256) as usize; ai < 1 + 4 + 16 + 64 + 84 });
+    // the same pairs with every other column-kind layout (keys u8 / string / bool / f64, payloads f64 / u64 / string / u8)
+    let base = jobs.clone();
+    for li in 1..LAYOUTS.len() { jobs.extend(base.iter().map(|j| Job { payload: format!("L{}", li), lo: j.lo, hi: j.hi })); }
     jobs.extend((0..5).map(|u| Job { payload: String::new(), lo: 9 * 256 + u, hi: 9 * 256 + u + 1 }));
     drive_ranges(cfg, rep, jobs);
     if rep.out.nontrivial < 1000 { rep.vacuity.push("too few judged joins".into()); }
